@@ -1,0 +1,27 @@
+//go:build verif
+
+package bgzf
+
+import "bytes"
+
+// VerifNewBlock manufactures a Block with the given base offset, BGZF member
+// size (which determines NextBase), used flag and decompressed data. Block has
+// unexported methods, so the verification harness cannot build one outside
+// this package.
+func VerifNewBlock(base, memberSize int64, used bool, data []byte) Block {
+	b := &block{}
+	VerifRecycle(b, base, memberSize, used, data)
+	return b
+}
+
+// VerifRecycle overwrites b in place with another member, the way a Reader
+// reuses a Block it owns as the target of the next decompression.
+func VerifRecycle(blk Block, base, memberSize int64, used bool, data []byte) {
+	b := blk.(*block)
+	b.used = used
+	b.setBase(base)
+	size := memberSize - 1
+	b.h.Extra = []byte{'B', 'C', 2, 0, byte(size), byte(size >> 8)}
+	n := copy(b.data[:], data)
+	b.buf = bytes.NewReader(b.data[:n])
+}
